@@ -16,6 +16,7 @@ import (
 	"context"
 	"fmt"
 	"net"
+	"strings"
 	"sync"
 	"sync/atomic"
 	"time"
@@ -250,4 +251,108 @@ func c14Fallback(c *Ctx) {
 		}
 	}
 	c.Ev.Sample(map[string]any{"part": "udp-fallback", "tcp_side": kinds, "deadline_ms": "300-900", "exchanges": n})
+}
+
+
+// c14Exhaust: a pipelined connection that has handed out all of its 65536 wire ids while its last
+// queries are still waiting for their (slow) replies. New exchanges must move on to another
+// connection and succeed; none of them has dialled the worn-out connection itself.
+func c14Exhaust(c *Ctx) {
+	for _, tname := range []string{"ctor-pipeline", "tls+pipeline"} {
+		sig := "exhausted:failed-although-server-healthy:" + tname
+		b, err := c14NewBackend(tname, "server")
+		if err != nil {
+			c.Inconclusive("exhaustion setup: " + err.Error())
+			continue
+		}
+		b.setScript(func(q *scripted.Query) scripted.Action {
+			if strings.HasPrefix(q.Name, "held") {
+				return scripted.Action{Tag: "echo-held", Delay: 500 * time.Millisecond}
+			}
+			return scripted.Action{Tag: "echo"}
+		})
+		tr, err := b.newTransport()
+		if err != nil {
+			b.close()
+			c.Inconclusive("exhaustion setup: " + err.Error())
+			continue
+		}
+		var seq atomic.Int64
+		one := func(prefix string, deadline time.Duration) (time.Duration, error) {
+			n := seq.Add(1)
+			q := scripted.BuildQuery(uint16(n), fmt.Sprintf("%s%d.%s.c14.test.", prefix, n, tname), 1, 1)
+			ctx, cancel := context.WithTimeout(context.Background(), deadline)
+			defer cancel()
+			t0 := time.Now()
+			m, err := tr.ExchangeContext(ctx, q)
+			if m != nil {
+				dnsmsg.ReleaseMsg(m)
+			}
+			return time.Since(t0), err
+		}
+		if _, err := one("warm", 3*time.Second); err != nil {
+			c.Inconclusive("exhaustion: warm-up exchange failed: " + err.Error())
+			tr.Close()
+			b.close()
+			continue
+		}
+		const total = 65536
+		var failed atomic.Int64
+		var wg sync.WaitGroup
+		var next atomic.Int64
+		next.Store(1)
+		for w := 0; w < 8; w++ {
+			wg.Add(1)
+			go func() {
+				defer wg.Done()
+				for next.Add(1) <= total-6 && failed.Load() == 0 {
+					if _, err := one("run", 3*time.Second); err != nil {
+						failed.Add(1)
+					}
+				}
+			}()
+		}
+		wg.Wait()
+		if failed.Load() > 0 || b.srv.Accepts() != 1 {
+			c.Inconclusive(fmt.Sprintf("exhaustion %s: id run did not stay on one healthy connection (failed %d, connections %d)", tname, failed.Load(), b.srv.Accepts()))
+			tr.Close()
+			b.close()
+			continue
+		}
+		// the last ids go to slow queries; 50 ms later a batch of ordinary exchanges arrives
+		type res struct {
+			kind string
+			d    time.Duration
+			err  error
+		}
+		out := make(chan res, 64)
+		for i := 0; i < 10; i++ {
+			go func() { d, err := one("held", 3*time.Second); out <- res{"held", d, err} }()
+		}
+		time.Sleep(50 * time.Millisecond)
+		for i := 0; i < 24; i++ {
+			go func() { d, err := one("after", 3*time.Second); out <- res{"after", d, err} }()
+			time.Sleep(2 * time.Millisecond)
+		}
+		var fails []string
+		for i := 0; i < 34; i++ {
+			r := <-out
+			c.Ev.Eval(1)
+			if r.err != nil {
+				fails = append(fails, fmt.Sprintf("%s after %v: %s", r.kind, r.d, upShort(r.err)))
+			}
+		}
+		conns := b.srv.Accepts()
+		tr.Close()
+		b.close()
+		c.Ev.Count("exhaustion_exchanges:"+tname, seq.Load())
+		c.Ev.Count("exhaustion_connections:"+tname, int64(conns))
+		if len(fails) > 0 {
+			c.Violation(sig, fmt.Sprintf("%s: %d of 34 exchanges failed while the first connection had used up its 65536 wire ids and its last queries were still in flight (server healthy, %d connections accepted): %s", tname, len(fails), conns, strings.Join(fails[:min(len(fails), 3)], " | ")),
+				map[string]any{"transport": tname, "failures": fails, "connections": conns})
+			continue
+		}
+		c.Ev.Distinct("exhausted-connection", tname, conns >= 2)
+	}
+	c.Ev.Sample(map[string]any{"part": "id-exhaustion", "ids_used_before_the_batch": 65530, "slow_replies_ms": 500, "batch": "10 slow + 24 ordinary exchanges"})
 }
